@@ -20,18 +20,19 @@ CONSTANTS MaxLen, Emit
 
 SymHash(m) == <<"H", m>>
 
-Kinds == {"good", "replayAcc", "replayRej", "stale", "wrongK", "wrongU",
+Kinds == {"good", "replayAcc", "replayRej", "replayAccFirst", "replayRejFirst", "stale", "wrongK", "wrongU",
           "flipProof", "flipData", "garbage"}
 
 VARIABLES ctr,       \* nonce counter (all draws)
           hist,      \* attempt kinds so far
           lastAcc,   \* last accepted <<data, proof>> or <<>>
           lastRej,   \* last rejected <<data, proof>> or <<>>
+          firstAcc, firstRej,   \* first accepted / rejected pair of the history, or <<>>
           prevChal,  \* challenge that was on offer before the last attempt, or <<>>
           accepted,  \* sequence of accepted triples <<chal, data, proof>>
           chals      \* set of all challenges ever on offer
 
-mvars == <<obj, out, ctr, hist, lastAcc, lastRej, prevChal, accepted, chals>>
+mvars == <<obj, out, ctr, hist, lastAcc, lastRej, firstAcc, firstRej, prevChal, accepted, chals>>
 
 S == "s"
 U0 == <<1>>
@@ -39,7 +40,7 @@ K0 == <<10>>
 
 Init == /\ obj = [x \in {S} |-> [st |-> "server", U |-> U0, K |-> K0, chal |-> <<100>>]]
         /\ out = [kind |-> "none"]
-        /\ ctr = 0 /\ hist = <<>> /\ lastAcc = <<>> /\ lastRej = <<>> /\ prevChal = <<>>
+        /\ ctr = 0 /\ hist = <<>> /\ lastAcc = <<>> /\ lastRej = <<>> /\ firstAcc = <<>> /\ firstRej = <<>> /\ prevChal = <<>>
         /\ accepted = <<>> /\ chals = {<<100>>}
 
 Nonce(n) == <<200 + n>>
@@ -53,6 +54,8 @@ Attempt(k) ==
     IN CASE k = "good"      -> <<cd, good>>
          [] k = "replayAcc" -> lastAcc
          [] k = "replayRej" -> lastRej
+         [] k = "replayAccFirst" -> IF firstAcc = lastAcc THEN <<>> ELSE firstAcc     \* an OLDER accepted pair
+         [] k = "replayRejFirst" -> IF firstRej = lastRej THEN <<>> ELSE firstRej
          [] k = "stale"     -> IF prevChal = <<>> THEN <<>>
                                ELSE <<cd, ReconnectProof(s.U, cd, prevChal, s.K)>>
          [] k = "wrongK"    -> <<cd, ReconnectProof(s.U, cd, s.chal, <<11>>)>>
@@ -73,8 +76,10 @@ Try(k) ==
           /\ chals' = chals \cup {NewChal(ctr)}
           /\ IF out'.ok
              THEN /\ lastAcc' = at /\ lastRej' = lastRej
+                  /\ firstAcc' = (IF firstAcc = <<>> THEN at ELSE firstAcc) /\ firstRej' = firstRej
                   /\ accepted' = Append(accepted, <<before, at[1], at[2]>>)
              ELSE /\ lastRej' = at /\ lastAcc' = lastAcc /\ accepted' = accepted
+                  /\ firstRej' = (IF firstRej = <<>> THEN at ELSE firstRej) /\ firstAcc' = firstAcc
 
 Next == \E k \in Kinds : Try(k)
 
